@@ -2841,11 +2841,8 @@ impl Server {
             results.push(RespFrame::from_string(score.to_string()));
         }
         
-        if results.is_empty() {
-            Ok(RespFrame::null_array())
-        } else {
-            Ok(RespFrame::Array(Some(results)))
-        }
+        // Nothing popped (missing key, count 0): the empty array; the null array is the reply of a BZPOP timeout
+        Ok(RespFrame::Array(Some(results)))
     }
     
     /// Handle ZPOPMAX command  
@@ -2882,11 +2879,8 @@ impl Server {
             results.push(RespFrame::from_string(score.to_string()));
         }
         
-        if results.is_empty() {
-            Ok(RespFrame::null_array())
-        } else {
-            Ok(RespFrame::Array(Some(results)))
-        }
+        // Nothing popped (missing key, count 0): the empty array; the null array is the reply of a BZPOP timeout
+        Ok(RespFrame::Array(Some(results)))
     }
     
     /// Handle PING command
